@@ -262,6 +262,7 @@ pub fn gen_case(seed: u64, focus: &str) -> Value {
     let mut rng = Rng::new(seed);
     let n_clients = rng.range(2, 6) as usize;
     let mut clients = vec![];
+    let mut earlier: Vec<Value> = vec![];
     for c in 0..n_clients {
         let n_req = rng.range(1, 4) as usize;
         let mut reqs = vec![];
@@ -288,9 +289,33 @@ pub fn gen_case(seed: u64, focus: &str) -> Value {
                 need_slots: g.chance(1, 2),
                 max_segments: 5,
                 id_prefix: format!("q{}x{}_", c, k),
+                sentinels: true,
                 ..Default::default()
             };
-            let (inst, _) = gen_instance(&mut g, &opts);
+            let (mut inst, _) = gen_instance(&mut g, &opts);
+            // Some requests share their infrastructure (locations, dead-head matrix, types, routes,
+            // all ids) with an earlier request of the run and differ only in the timetable: the last
+            // departure is a day later, which also changes the planning horizon. Attribution then
+            // rests on the content (times) instead of the ids.
+            if !earlier.is_empty() && rng.chance(1, 4) {
+                let base: &Value = &earlier[rng.usize(earlier.len())];
+                let mut v = base.clone();
+                if let Some(deps) = v["departures"].as_array_mut() {
+                    if let Some(last) = deps.last_mut() {
+                        if let Some(segs) = last["segments"].as_array_mut() {
+                            for sgm in segs.iter_mut() {
+                                if let Some(t) = sgm["departure"].as_str().and_then(|t| crate::refmodel::parse_time(t).ok()) {
+                                    sgm["departure"] = json!(crate::refmodel::fmt_time(t + 86400));
+                                }
+                            }
+                        }
+                    }
+                }
+                if RefInstance::parse(&v).is_ok() {
+                    inst = v;
+                }
+            }
+            earlier.push(inst.clone());
             // fault attached to this request (at most one per request, ~25 %)
             let fault_w: [(&str, u32); 7] = [
                 ("none", 75),
@@ -533,6 +558,7 @@ struct ClientConn {
     answered: usize,              // responses already matched on this connection
     aborted: bool,
     consumed: usize,
+    half_closed: bool,
 }
 
 struct Client {
@@ -686,7 +712,7 @@ fn run_inner(case: &Value) -> Value {
             for (ci, cl) in clients.iter().enumerate() {
                 // start next request: on the current connection if pipelining or idle, else wait
                 if cl.next < cl.reqs.len() {
-                    let cur = cl.conns.iter().rposition(|c| !c.aborted && !conns[c.conn].pipe.0.lock().unwrap().server_closed);
+                    let cur = cl.conns.iter().rposition(|c| !c.aborted && !c.half_closed && !conns[c.conn].pipe.0.lock().unwrap().server_closed);
                     match cur {
                         None => ev.push((0, ci, 0)), // open a connection and queue the request
                         Some(k) => {
@@ -765,7 +791,7 @@ fn run_inner(case: &Value) -> Value {
                     let cl = &mut clients[e.1];
                     let k = if e.0 == 0 {
                         conns.push(new_conn(&router, overlap, &rt_handle));
-                        cl.conns.push(ClientConn { conn: conns.len() - 1, sent_reqs: vec![], out: VecDeque::new(), answered: 0, aborted: false, consumed: 0 });
+                        cl.conns.push(ClientConn { conn: conns.len() - 1, sent_reqs: vec![], out: VecDeque::new(), answered: 0, aborted: false, consumed: 0, half_closed: false });
                         cl.conns.len() - 1
                     } else {
                         e.2
@@ -784,7 +810,7 @@ fn run_inner(case: &Value) -> Value {
                         *faults.entry("duplicate_on_second_connection".into()).or_insert(0) += 1;
                         fault_happened_at = Some(steps);
                         conns.push(new_conn(&router, overlap, &rt_handle));
-                        let mut dup = ClientConn { conn: conns.len() - 1, sent_reqs: vec![ri], out: VecDeque::new(), answered: 0, aborted: false, consumed: 0 };
+                        let mut dup = ClientConn { conn: conns.len() - 1, sent_reqs: vec![ri], out: VecDeque::new(), answered: 0, aborted: false, consumed: 0, half_closed: false };
                         for b in cl.reqs[ri].bytes.clone() {
                             dup.out.push_back((ri, b));
                         }
@@ -854,6 +880,21 @@ fn run_inner(case: &Value) -> Value {
                                 for r in cc.sent_reqs[cc.answered..].to_vec() {
                                     cl.excused.insert(r);
                                 }
+                                // a client that has shut down its write side sends nothing more on this
+                                // connection: whatever was pipelined behind goes to a new connection
+                                if !cc.out.is_empty() {
+                                    let first_unsent = cc.out.front().unwrap().0;
+                                    cc.out.clear();
+                                    let pos = cc.sent_reqs.iter().position(|&r| r == first_unsent).unwrap_or(cc.sent_reqs.len());
+                                    for r in cc.sent_reqs[pos..].to_vec() {
+                                        cl.excused.remove(&r);
+                                    }
+                                    cc.sent_reqs.truncate(pos);
+                                    if cl.next > first_unsent {
+                                        cl.next = first_unsent;
+                                    }
+                                }
+                                cc.half_closed = true;
                                 sc.pipe.0.lock().unwrap().client_write_closed = true;
                                 wake_server(sc);
                             }
